@@ -92,7 +92,8 @@ GRV_CMD(shape) {
             GRV_WATCHDOG;
             gr_segment *seg = gr_make_seg(gf, face, 0, 0, gr_utf32, t.data(), t.size(), dir);
             ++segs; ++g_cases;
-            SegP p = project(seg, face, gf, true);
+            // "nogid": the font's cmap names glyph ids the font does not have (outside the glyph-id clause of C03)
+            SegP p = project(seg, face, gf, j->get("nogid", 0) == 0);
             if (!seg) ++nulls;
             if (!p.wf.empty()) { vj::W w; w.str("id", id).i("seg", k).i("dir", dir).i("opts", opts); std::vector<long long> cp(t.begin(), t.end()); w.arr("cps", cp); report_fail(p.wfprop.c_str(), p.wf, w.done()); }
             if (seg && p.nslots > 64 * std::max<size_t>(t.size(), 1)) { vj::W w; w.str("id", id).i("seg", k); report_fail("C02", "more than 64 slots per input character", w.done()); }
